@@ -46,7 +46,7 @@ def random_mtl_program(rng: random.Random):
     trunk_rg_leaves = [i + 1 for i, nd in enumerate(trunk) if nd["op"] == "leaf" and nd["rg"]]
     head_leaves: list[int] = []
     losses, natural = [], []
-    for t in range(rng.randint(1, 3)):
+    for t in range(rng.choice([1, 2, 2, 3, 3, 4, 5])):
         f = rng.choice(feats)
         nat = set()
         kind = rng.choice(["own", "own", "reuse", "noparam", "both", "around", "nofeat", "twobias"])
@@ -132,7 +132,7 @@ def record_episode(rng: random.Random, ep: int):
         tparams.append(sorted(tp))
     shared = sorted(s for s in trunk_leaves if rng.random() < 0.8)
     w = [rng.randint(-3, 3) for _ in losses]
-    k = rng.choice([0, 0, 1, 2, len(losses) + 1])
+    k = rng.choice([0, 0, 1, 2, 3, 4, len(losses) + 1])
     grad0 = [[] for _ in prog]
     for l in trunk_leaves + head_leaves:
         if rng.random() < 0.3:
